@@ -32,6 +32,8 @@ func runC08(c *eng.Ctx) {
 	ruleNegativeSettingsTakeTheDefault(c)
 	c.Rule("R08.9", "K3")
 	ruleCompactedSegmentsArePublishedAsTheyAreReplaced(c)
+	c.Rule("R01.8", "K5")
+	ruleNoEntryAtOrBelowIsMinusOne(c)
 	p := c.P
 	// ---- R08.1 retention predicate
 	c.Rule("R08.1", "K1")
